@@ -10,25 +10,29 @@ import sys
 from . import c02, c02isa
 
 
-def main(argv):
-    name, variant, noal, mt, code = argv[0], argv[1], int(argv[2]), int(argv[3]), argv[4]
-    seed = int(argv[5]) if len(argv) > 5 else 0
-    c02isa.quiet()
-    isa = c02isa.Isa(name)
+def one(isa, variant, noal, mt, code, seed, quiet=False):
     c = c02.Case(isa, random.Random(seed), 1, noal, mt, variant, 0)
     c.code = [bytes.fromhex(x) for x in code.split(",")]
     c.configure()
     ins = c.decode_all(len(c.code))
     c.mnem = [str(i.mnemonic) for i in ins]
-    print("sequence:", " ; ".join(str(i) for i in ins))
     extra = c.operand_regs()[0]
     c.plan = isa.plan_state(c.rng, extra, overlap=False)
     t = c.execute()
+    def show(i):
+        try:
+            return str(i)
+        except Exception:            # some formatters raise (C17's subject): fall back to the mnemonic
+            return str(i.mnemonic)
+    lines = ["sequence: " + " ; ".join(show(i) for i in ins) + "   (state seed %d)" % seed]
     bad = 0
     for st in t["steps"]:
         k = st["k"]
+        if st.get("gA") != st.get("gB"):
+            bad += 1
+            lines.append("prefix %d (%s): decode-mode globals differ  A=%s  B=%s" % (k, c.mnem[k - 1], st["gA"], st["gB"]))
         if st["ra"] or st["rb"] or st["rx"] or st["re"]:
-            print("prefix %d (%s): raised  A=%r  B=%r  E=%r" % (k, c.mnem[k - 1], st["ra"], st["rb"], st["re"]))
+            lines.append("prefix %d (%s): raised  A=%r  B=%r  E=%r" % (k, c.mnem[k - 1], st["ra"], st["rb"], st["re"]))
             if bool(st["ra"]) != bool(st["rb"]):
                 bad += 1
             continue
@@ -36,11 +40,25 @@ def main(argv):
             for x, y in zip(ref, got):
                 if x["c"] == 1 and y["c"] == 1 and x["v"] != y["v"]:
                     bad += 1
-                    print("prefix %d (%s): %s  A=%#x  %s=%#x" % (k, c.mnem[k - 1], x["n"], c02.ser.unlimbs(x["v"]), nm, c02.ser.unlimbs(y["v"])))
+                    lines.append("prefix %d (%s): %s  A=%#x  %s=%#x" % (k, c.mnem[k - 1], x["n"], c02.ser.unlimbs(x["v"]), nm, c02.ser.unlimbs(y["v"])))
         for x, y in zip(st["mA"], st["mB"]):
             if x["c"] == 1 and y["c"] == 1 and x["v"] != y["v"]:
                 bad += 1
-                print("prefix %d (%s): byte @%#x  A=%#x  B=%#x" % (k, c.mnem[k - 1], c02.ser.unlimbs(x["a"]), x["v"], y["v"]))
+                lines.append("prefix %d (%s): byte @%#x  A=%#x  B=%#x" % (k, c.mnem[k - 1], c02.ser.unlimbs(x["a"]), x["v"], y["v"]))
+    return bad, lines
+
+
+def main(argv):
+    name, variant, noal, mt, code = argv[0], argv[1], int(argv[2]), int(argv[3]), argv[4]
+    c02isa.quiet()
+    isa = c02isa.Isa(name)
+    seeds = [int(argv[5])] if len(argv) > 5 else range(60)      # some defects need a particular operand value
+    bad, lines = 0, []
+    for seed in seeds:
+        bad, lines = one(isa, variant, noal, mt, code, seed)
+        if bad:
+            break
+    print("\n".join(lines))
     print("differences:", bad)
     return 1 if bad else 0
 
